@@ -1228,13 +1228,16 @@ class Interp:
             return ClassTok("set" if isinstance(v, SetVal) else type(v).__name__)
         if name == "isinstance":
             v, c = args
-            cs = c if isinstance(c, tuple) and not (len(c) == 2 and c[0] == "builtin") else (c,)
+            cs = c if isinstance(c, tuple) and not (len(c) == 2 and c[0] in ("builtin", "native")) else (c,)
             for k in cs:
                 if isinstance(k, ClassTok):
                     vn = v.cls_name if isinstance(v, Obj) else v.cls if isinstance(v, EnumVal) else type(v).__name__
                     if vn == k.name:
                         return True
                     if self.repo.has_cls(vn) and any(x.name == k.name for x in self.repo.mro(self.repo.cls(vn))):
+                        return True
+                elif isinstance(k, tuple) and k[0] == "native" and isinstance(k[1], type):
+                    if isinstance(v, k[1]):
                         return True
                 elif isinstance(k, tuple) and k[0] == "builtin":
                     tn = type(v).__name__
